@@ -79,16 +79,64 @@ Qed.
 
 Definition bytes (h : list N) : Prop := Forall (fun b => b < 256) h.
 
-(* one step of any scan: from the state of lsuf w to the state of lsuf (w ++ [c]) *)
+(* the transition loop, with its iteration count: reading c in the state of node u ends in the
+   state of lsuf (u ++ [c]) and costs at most |u| + 2 - |lsuf (u ++ [c])| iterations *)
+Lemma lsuf_cons' a r : lsuf (a :: r) = if Cert.inT child (a :: r) then a :: r else lsuf r.
+Proof. apply (lsuf_cons child). Qed.
+
+Lemma lsuf_len' r : (length (lsuf r) <= length r)%nat.
+Proof.
+  induction r as [|a r IH]; [cbn; lia|]. rewrite lsuf_cons'.
+  destruct (Cert.inT child (a :: r)); cbn [length]; lia.
+Qed.
+
+Lemma next_state_ticks c : c < 256 -> forall fuel u s t,
+  walk ROOT u = Some s -> (length u < fuel)%nat ->
+  exists s' t', bw_next_state sget fuel s c t = Ok (s', t')
+                /\ walk ROOT (lsuf (u ++ [c])) = Some s'
+                /\ (N.to_nat t' + length (lsuf (u ++ [c])) <= N.to_nat t + length u + 2)%nat.
+Proof.
+  intros Hc. induction fuel as [|fuel IH]; intros u s t Hw Hlen; [lia|].
+  pose proof (node_ok' u s Hw) as NF.
+  cbn [bw_next_state]. destruct NF as [NFroot _ NFfail _ NFchild]. destruct (NFchild c) as [r Hr].
+  unfold child, bwc_child in Hr. rewrite (proj2 (N.ltb_lt _ _) Hc) in Hr. rewrite Hr. cbn [bind].
+  assert (Hchild : child s c = Ok r).
+  { unfold child, bwc_child. rewrite (proj2 (N.ltb_lt _ _) Hc). exact Hr. }
+  destruct r as [t1|].
+  - exists t1, (t + 1). split; [reflexivity|].
+    assert (Hwt : walk ROOT (u ++ [c]) = Some t1) by (rewrite (walk_snoc child), Hw, Hchild; reflexivity).
+    rewrite (lsuf_of_node child) by (unfold Cert.inT; rewrite Hwt; reflexivity).
+    split; [exact Hwt|]. rewrite app_length. cbn [length]. lia.
+  - assert (Hnot : Cert.inT child (u ++ [c]) = false).
+    { unfold Cert.inT. rewrite (walk_snoc child), Hw, Hchild. reflexivity. }
+    destruct u as [|a r].
+    + cbn in Hw. inversion Hw; subst s. rewrite N.eqb_refl.
+      exists ROOT, (t + 1). split; [reflexivity|]. cbn [app] in *. rewrite lsuf_cons', Hnot.
+      split; [reflexivity|]. cbn. lia.
+    + destruct (s =? ROOT) eqn:Es.
+      { apply N.eqb_eq in Es. pose proof (NFroot Es). discriminate. }
+      destruct (NFfail a r eq_refl) as [f [Hf Hwf]].
+      unfold failof, bwc_failof in Hf. destruct (st_at sget s) as [st| | | |]; cbn [bind] in Hf; try discriminate.
+      inversion Hf; subst f. cbn [bind].
+      destruct (IH (lsuf r) (b_fail st) (t + 1) Hwf) as (s' & t' & Hs' & Hw' & Ht').
+      { pose proof (lsuf_len' r). cbn [length] in Hlen. lia. }
+      exists s', t'. split; [exact Hs'|].
+      cbn [app]. rewrite lsuf_cons'. cbn [app] in Hnot. rewrite Hnot.
+      rewrite (lsuf_snoc child). split; [exact Hw'|].
+      pose proof (lsuf_len' r). cbn [length]. lia.
+Qed.
+
+(* one step of any scan: from the state of lsuf w to the state of lsuf (w ++ [c]); the potential
+   "iterations so far + depth of the current node" grows by at most 2 *)
 Lemma step w c s t : c < 256 -> walk ROOT (lsuf w) = Some s ->
   exists s' t', bw_next_state sget (fuel0 nslots) s c t = Ok (s', t')
-                /\ walk ROOT (lsuf (w ++ [c])) = Some s'.
+                /\ walk ROOT (lsuf (w ++ [c])) = Some s'
+                /\ (N.to_nat t' + length (lsuf (w ++ [c])) <= N.to_nat t + length (lsuf w) + 2)%nat.
 Proof.
-  intros Hc Hw.
-  destruct (g_next_step V veqb veqb_sound child failof outposof outat byte_labels bwc_plen pvs
-              child_labels maxdepth nouts cert_tree w c s (fuel0 nslots) Hw) as [s' [H1 H2]].
-  { unfold fuel0, nslots, bw_nslots, maxdepth. rewrite Nat2N.id. lia. }
-  destruct (next_state_gen c Hc _ s t s' H1) as [t' Ht]. eauto.
+  intros Hc Hw. pose proof (node_ok' _ _ Hw) as NF.
+  destruct (next_state_ticks c Hc (fuel0 nslots) (lsuf w) s t Hw) as (s' & t' & H1 & H2 & H3).
+  { destruct NF as [_ Hd _ _ _]. unfold fuel0, nslots, bw_nslots. rewrite Nat2N.id. unfold maxdepth in Hd. lia. }
+  exists s', t'. rewrite (lsuf_snoc child). auto.
 Qed.
 
 (* ---- outputs of the state of lsuf w -------------------------------------------------------- *)
@@ -207,32 +255,36 @@ Definition nos_it_at (rest : list N) (pulled : nat) (s t : N) : nos_it :=
 
 Lemma nos_run h : forall rest w s t k,
   h = w ++ rest -> bytes rest -> walk ROOT (lsuf w) = Some s -> (length rest < k)%nat ->
+  (N.to_nat t + length (lsuf w) <= 2 * length w)%nat ->
   exists it', drain V nos_next' k (nos_it_at rest (length w) s t)
               = Ok (flat_map (fun e => first1 (map (mk e) (sufpats (firstn e h))))
-                             (seq (S (length w)) (length rest)), it').
+                             (seq (S (length w)) (length rest)), it')
+              /\ (N.to_nat (x_ticks it') <= 2 * length h)%nat.
 Proof.
-  induction rest as [|c rest IH]; intros w s t k Hh Hb Hw Hk.
-  - destruct k as [|k]; [cbn in Hk; lia|]. cbn [drain]. unfold nos_next, nos_it_at. cbn. eexists; reflexivity.
+  induction rest as [|c rest IH]; intros w s t k Hh Hb Hw Hk Hphi.
+  - destruct k as [|k]; [cbn in Hk; lia|]. cbn [drain]. unfold nos_next, nos_it_at. cbn.
+    eexists; split; [reflexivity|]. cbn. subst h. rewrite app_nil_r. lia.
   - inversion Hb as [|? ? Hc Hb']; subst.
-    destruct (step w c s t Hc Hw) as (s' & t' & Hstep & Hw').
+    destruct (step w c s t Hc Hw) as (s' & t' & Hstep & Hw' & Htk).
     destruct (outputs_at (w ++ [c]) s' Hw') as (st & os & Hst & Hch & Hmap & _).
     assert (Hh' : w ++ c :: rest = (w ++ [c]) ++ rest) by (rewrite <- app_assoc; reflexivity).
     assert (Hlen0 : length (w ++ [c]) = S (length w)) by (rewrite app_length; cbn [length]; lia).
     assert (Hfirst : firstn (S (length w)) (w ++ c :: rest) = w ++ [c]).
     { rewrite Hh', <- Hlen0. rewrite firstn_app, Nat.sub_diag, firstn_all. cbn [firstn]. apply app_nil_r. }
     assert (Hlen : length (w ++ [c]) = S (length w)) by (rewrite app_length; cbn; lia).
+    assert (Hphi' : (N.to_nat t' + length (lsuf (w ++ [c])) <= 2 * length (w ++ [c]))%nat) by lia.
     destruct k as [|k]; [lia|].
     cbn [length seq flat_map]. rewrite Hfirst, <- Hmap.
     destruct os as [|o os'].
     + (* no output at this position: the same call keeps scanning *)
       apply chain_nil in Hch.
-      destruct (IH (w ++ [c]) s' t' (S k) Hh' Hb' Hw') as [it' Hd]; [cbn [length] in Hk; lia|].
-      exists it'. cbn [map]. rewrite first1_nil. cbn [app]. rewrite Hlen in Hd. rewrite <- Hd.
+      destruct (IH (w ++ [c]) s' t' (S k) Hh' Hb' Hw') as [it' [Hd Ht]]; [cbn [length] in Hk; lia|exact Hphi'|].
+      exists it'. split; [|exact Ht]. cbn [map]. rewrite first1_nil. cbn [app]. rewrite Hlen in Hd. rewrite <- Hd.
       cbn [drain]. unfold nos_next at 1 3, nos_it_at. cbn [x_src s_rest s_pulled x_state x_ticks nos_scan].
       rewrite Hstep. cbn [bind]. rewrite Hst. cbn [bind]. rewrite Hch. rewrite N.eqb_refl. reflexivity.
     + apply chain_cons in Hch as (Hp & Hout & _).
-      destruct (IH (w ++ [c]) s' t' k Hh' Hb' Hw') as [it' Hd]; [cbn [length] in Hk; lia|].
-      exists it'. cbn [map]. rewrite first1_cons. cbn [app].
+      destruct (IH (w ++ [c]) s' t' k Hh' Hb' Hw') as [it' [Hd Ht]]; [cbn [length] in Hk; lia|exact Hphi'|].
+      exists it'. split; [|exact Ht]. cbn [map]. rewrite first1_cons. cbn [app].
       cbn [drain]. unfold nos_next at 1, nos_it_at. cbn [x_src s_rest s_pulled x_state x_ticks nos_scan].
       rewrite Hstep. cbn [bind]. rewrite Hst. cbn [bind].
       rewrite (proj2 (N.eqb_neq _ _) Hp). unfold outat, bwc_outat in Hout. rewrite Hout. cbn [bind].
@@ -259,7 +311,7 @@ Theorem bw_nosuffix_correct_lemma h : bytes h ->
   bw_find_overlapping_no_suffix_iter V A h = Ok (spec_nosuffix V pvs h).
 Proof.
   intros Hb. unfold bw_find_overlapping_no_suffix_iter. rewrite kind_std. unfold run_iter.
-  destruct (nos_run h h [] ROOT 0 (S (S (length h))) eq_refl Hb walk_root0) as [it' Hd]; [lia|].
+  destruct (nos_run h h [] ROOT 0 (S (S (length h))) eq_refl Hb walk_root0) as [it' [Hd _]]; [lia|cbn; lia|].
   unfold nos_init, src_of. unfold nos_it_at in Hd. cbn [length] in Hd.
   fold sget oget nslots. rewrite Hd. cbn [bind].
   rewrite triples_ok.
@@ -307,33 +359,36 @@ Definition ovl_expected (h : list N) (from n : nat) : list (mtch V) :=
 
 Lemma ovl_run h : forall rest w s pos t,
   h = w ++ rest -> bytes rest -> walk ROOT (lsuf w) = Some s ->
-  exists it', forall k, (length (ovl_expected h (S (length w)) (length rest)) < k)%nat ->
+  (N.to_nat t + length (lsuf w) <= 2 * length w)%nat ->
+  exists it', (N.to_nat (v_ticks it') <= 2 * length h)%nat /\
+   forall k, (length (ovl_expected h (S (length w)) (length rest)) < k)%nat ->
     drain V ovl_next' k (ovl_it_at rest (length w) s pos 0 t)
     = Ok (ovl_expected h (S (length w)) (length rest), it').
 Proof.
   unfold ovl_expected.
-  induction rest as [|c rest IH]; intros w s pos t Hh Hb Hw.
-  - eexists. intros k Hk. destruct k as [|k]; [cbn in Hk; lia|]. cbn [drain].
-    unfold ovl_next, ovl_it_at. cbn. reflexivity.
+  induction rest as [|c rest IH]; intros w s pos t Hh Hb Hw Hphi.
+  - eexists. split; [|intros k Hk; destruct k as [|k]; [cbn in Hk; lia|]; cbn [drain];
+    unfold ovl_next, ovl_it_at; cbn; reflexivity]. cbn. subst h. rewrite app_nil_r. lia.
   - inversion Hb as [|? ? Hc Hb']; subst.
-    destruct (step w c s t Hc Hw) as (s' & t' & Hstep & Hw').
+    destruct (step w c s t Hc Hw) as (s' & t' & Hstep & Hw' & Htk).
     destruct (outputs_at (w ++ [c]) s' Hw') as (st & os & Hst & Hch & Hmap & _).
     assert (Hh' : w ++ c :: rest = (w ++ [c]) ++ rest) by (rewrite <- app_assoc; reflexivity).
     assert (Hlen : length (w ++ [c]) = S (length w)) by (rewrite app_length; cbn [length]; lia).
     assert (Hfirst : firstn (S (length w)) (w ++ c :: rest) = w ++ [c]).
     { rewrite Hh', <- Hlen. rewrite firstn_app, Nat.sub_diag, firstn_all. cbn [firstn]. apply app_nil_r. }
+    assert (Hphi' : (N.to_nat t' + length (lsuf (w ++ [c])) <= 2 * length (w ++ [c]))%nat) by lia.
     cbn [length seq flat_map]. rewrite Hfirst, <- Hmap, <- mko_mk.
     destruct os as [|o os'].
     + apply chain_nil in Hch.
-      destruct (IH (w ++ [c]) s' pos t' Hh' Hb' Hw') as (it' & Hd).
-      exists it'. intros k Hk. cbn [map app] in *. destruct k as [|k]; [lia|].
+      destruct (IH (w ++ [c]) s' pos t' Hh' Hb' Hw' Hphi') as (it' & Ht & Hd).
+      exists it'. split; [exact Ht|]. intros k Hk. cbn [map app] in *. destruct k as [|k]; [lia|].
       rewrite Hlen in Hd. rewrite <- (Hd (S k)) by lia.
       cbn [drain]. unfold ovl_next at 1 3, ovl_it_at. cbn [v_outpos v_src s_rest s_pulled v_state v_pos v_ticks].
       rewrite N.eqb_refl. cbn [ovl_scan]. rewrite Hstep. cbn [bind]. rewrite Hst. cbn [bind].
       rewrite Hch, N.eqb_refl. reflexivity.
     + pose proof Hch as Hch0. apply chain_cons in Hch as (Hp & Hout & fuel' & Hch').
-      destruct (IH (w ++ [c]) s' (S (length w)) t' Hh' Hb' Hw') as (it' & Hd).
-      exists it'. intros k Hk. rewrite app_length, map_length in Hk. cbn [length] in Hk.
+      destruct (IH (w ++ [c]) s' (S (length w)) t' Hh' Hb' Hw' Hphi') as (it' & Ht & Hd).
+      exists it'. split; [exact Ht|]. intros k Hk. rewrite app_length, map_length in Hk. cbn [length] in Hk.
       destruct k as [|k]; [lia|].
       cbn [drain]. unfold ovl_next at 1, ovl_it_at. cbn [v_outpos v_src s_rest s_pulled v_state v_pos v_ticks].
       rewrite N.eqb_refl. cbn [ovl_scan]. rewrite Hstep. cbn [bind]. rewrite Hst. cbn [bind].
@@ -364,7 +419,7 @@ Theorem bw_overlapping_correct_lemma h : bytes h ->
   bw_find_overlapping_iter V A h = Ok (spec_overlapping V pvs h).
 Proof.
   intros Hb. unfold bw_find_overlapping_iter. rewrite kind_std. unfold run_iter.
-  destruct (ovl_run h h [] ROOT 0%nat 0 eq_refl Hb walk_root0) as [it' Hd].
+  destruct (ovl_run h h [] ROOT 0%nat 0 eq_refl Hb walk_root0) as [it' [_ Hd]]; [cbn; lia|].
   unfold ovl_init, src_of. unfold ovl_it_at in Hd. cbn [length] in Hd.
   fold sget oget nslots. rewrite Hd.
   - cbn [bind]. rewrite triples_ok.
@@ -394,18 +449,21 @@ Proof. rewrite firstn_app, Nat.sub_diag, firstn_all. cbn [firstn]. apply app_nil
 
 Lemma find_scan_spec h w0 : forall rest w s t,
   h = w0 ++ w ++ rest -> bytes rest -> walk ROOT (lsuf w) = Some s ->
+  (N.to_nat t + length (lsuf w) <= 2 * (length w0 + length w))%nat ->
   exists r it', find_scan V sget oget nslots rest (length w0 + length w) s t = Ok (r, it') /\
     match first_end V pvs h (length w0) (seq (S (length w0 + length w)) (length rest)) with
-    | None => r = None
+    | None => r = None /\ (N.to_nat (f_ticks it') <= 2 * length h)%nat
     | Some x => exists m, r = Some m /\ tr_m m = x /\ (N.to_nat (m_length m) <= m_end m)%nat
                           /\ (length w0 + length w < m_end m <= length h)%nat
                           /\ s_rest (f_src it') = skipn (m_end m) h /\ s_pulled (f_src it') = m_end m
+                          /\ (N.to_nat (f_ticks it') <= 2 * m_end m)%nat
     end.
 Proof.
-  induction rest as [|c rest IH]; intros w s t Hh Hb Hw.
-  - cbn [find_scan length seq first_end]. eauto.
+  induction rest as [|c rest IH]; intros w s t Hh Hb Hw Hphi.
+  - cbn [find_scan length seq first_end]. eexists. eexists. split; [reflexivity|]. split; [reflexivity|].
+    cbn. subst h. rewrite !app_length. cbn [length]. lia.
   - inversion Hb as [|? ? Hc Hb']; subst.
-    destruct (step w c s t Hc Hw) as (s' & t' & Hstep & Hw').
+    destruct (step w c s t Hc Hw) as (s' & t' & Hstep & Hw' & Htk).
     destruct (outputs_at (w ++ [c]) s' Hw') as (st & os & Hst & Hch & Hmap & _).
     set (h := w0 ++ w ++ c :: rest) in *.
     assert (Hh' : h = w0 ++ (w ++ [c]) ++ rest) by (unfold h; rewrite <- !app_assoc; reflexivity).
@@ -416,21 +474,22 @@ Proof.
     { unfold sub. rewrite Hh' at 1. rewrite skipn_app_exact.
       replace (S (length w0 + length w) - length w0)%nat with (length (w ++ [c])) by lia.
       apply firstn_app_exact. }
+    assert (Hphi' : (N.to_nat t' + length (lsuf (w ++ [c])) <= 2 * (length w0 + length (w ++ [c])))%nat) by lia.
     cbn [length seq first_end find_scan].
     rewrite ends_at_from_sufpats by lia. rewrite Hsub, <- Hmap.
     rewrite Hstep. cbn [bind]. rewrite Hst. cbn [bind].
     destruct os as [|o os'].
     + apply chain_nil in Hch. rewrite Hch, N.eqb_refl. cbn [map].
-      destruct (IH (w ++ [c]) s' t' Hh' Hb' Hw') as (r & it' & Hr & Hm).
+      destruct (IH (w ++ [c]) s' t' Hh' Hb' Hw' Hphi') as (r & it' & Hr & Hm).
       rewrite Hlen in Hr, Hm. replace (length w0 + S (length w))%nat with (S (length w0 + length w)) in Hr, Hm by lia.
       exists r, it'. split; [exact Hr|].
       destruct (first_end V pvs h (length w0) (seq (S (S (length w0 + length w))) (length rest))) as [x|]; [|exact Hm].
-      destruct Hm as (m & H1 & H2 & H3 & H4 & H5 & H6). exists m.
-      split; [exact H1|]. split; [exact H2|]. split; [exact H3|]. split; [lia|]. split; assumption.
+      destruct Hm as (m & H1 & H2 & H3 & H4 & H5 & H6 & H7). exists m.
+      split; [exact H1|]. split; [exact H2|]. split; [exact H3|]. split; [lia|]. split; [assumption|]. split; assumption.
     + apply chain_cons in Hch as (Hp & Hout & _).
       rewrite (proj2 (N.eqb_neq _ _) Hp). unfold outat, bwc_outat in Hout. rewrite Hout. cbn [bind map].
       eexists. eexists. split; [reflexivity|]. eexists. split; [reflexivity|].
-      cbn [tr_m m_end m_length m_value f_src s_rest s_pulled]. repeat split; try lia.
+      cbn [tr_m m_end m_length m_value f_src s_rest s_pulled f_ticks]. repeat split; try lia.
       * assert (In (o_length o, o_value o) (sufpats (w ++ [c]))) as Hin by (rewrite <- Hmap; left; reflexivity).
         apply sufpats_len in Hin. cbn [fst] in Hin. lia.
       * replace (S (length w0 + length w)) with (length (w0 ++ w ++ [c]))
@@ -444,11 +503,13 @@ Definition find_it_at (rest : list N) (pulled : nat) (t : N) : find_it :=
 
 Lemma find_run h : bytes h -> forall n from k t,
   (from <= length h)%nat -> (length h - from < n)%nat -> (n <= k)%nat ->
+  (N.to_nat t <= 2 * from)%nat ->
   exists ms it', drain V find_next' k (find_it_at (skipn from h) from t) = Ok (ms, it')
                  /\ map tr_m ms = spec_find_from V n pvs h from
-                 /\ Forall (fun m => (N.to_nat (m_length m) <= m_end m)%nat) ms.
+                 /\ Forall (fun m => (N.to_nat (m_length m) <= m_end m)%nat) ms
+                 /\ (N.to_nat (f_ticks it') <= 2 * length h)%nat.
 Proof.
-  intros Hb. induction n as [|n IH]; intros from k t Hf Hn Hk; [lia|].
+  intros Hb. induction n as [|n IH]; intros from k t Hf Hn Hk Hphi; [lia|].
   destruct k as [|k]; [lia|].
   assert (Hh : h = firstn from h ++ [] ++ skipn from h) by (cbn [app]; symmetry; apply firstn_skipn).
   assert (Hl0 : length (firstn from h) = from) by (rewrite firstn_length; lia).
@@ -456,28 +517,59 @@ Proof.
   { unfold bytes in *. rewrite Forall_forall in *. intros x Hx. apply Hb.
     rewrite <- (firstn_skipn from h). apply in_or_app. right. exact Hx. }
   destruct (find_scan_spec h (firstn from h) (skipn from h) [] ROOT t Hh Hbs walk_root0) as (r & it1 & Hr & Hm).
+  { rewrite Hl0. cbn. lia. }
   rewrite Hl0 in Hr, Hm. cbn [length] in Hr, Hm. rewrite Nat.add_0_r in Hr, Hm. rewrite skipn_length in Hm.
   cbn [drain spec_find_from]. unfold find_next at 1, find_it_at. cbn [f_src s_rest s_pulled f_ticks].
   rewrite Hr. cbn [bind].
   destruct (first_end V pvs h from (seq (S from) (length h - from))) as [[[st e] v]|].
-  - destruct Hm as (m & H1 & H2 & H3 & H4 & H5 & H6). subst r.
-    destruct (IH (m_end m) k (f_ticks it1)) as (ms & it' & Hd & Hs & Hall); try lia.
+  - destruct Hm as (m & H1 & H2 & H3 & H4 & H5 & H6 & H7). subst r.
+    destruct (IH (m_end m) k (f_ticks it1)) as (ms & it' & Hd & Hs & Hall & Ht); try lia.
     destruct it1 as [[rest1 p1] t1]. cbn [f_src s_rest s_pulled f_ticks] in *. subst rest1 p1.
     unfold find_it_at in Hd. rewrite Hd. cbn [bind].
-    exists (m :: ms), it'. split; [reflexivity|]. split.
-    + cbn [map]. rewrite H2, Hs. unfold tr_m in H2. inversion H2; subst. reflexivity.
-    + constructor; assumption.
-  - subst r. exists [], it1. repeat split. constructor.
+    exists (m :: ms), it'. split; [reflexivity|]. split; [|split; [constructor; assumption|exact Ht]].
+    cbn [map]. rewrite H2, Hs. unfold tr_m in H2. inversion H2; subst. reflexivity.
+  - destruct Hm as [-> Ht]. exists [], it1. repeat split; [constructor|exact Ht].
 Qed.
 
 Theorem bw_find_correct_lemma h : bytes h ->
   bw_find_iter V A h = Ok (spec_find V pvs h).
 Proof.
   intros Hb. unfold bw_find_iter. rewrite kind_std. unfold run_iter.
-  destruct (find_run h Hb (S (length h)) 0%nat (S (S (length h))) 0) as (ms & it' & Hd & Hs & Hall); try lia.
+  destruct (find_run h Hb (S (length h)) 0%nat (S (S (length h))) 0) as (ms & it' & Hd & Hs & Hall & _); try lia.
   unfold find_init, src_of. unfold find_it_at in Hd. cbn [skipn] in Hd.
   fold sget oget nslots. rewrite Hd. cbn [bind]. rewrite triples_ok by exact Hall.
   rewrite Hs. reflexivity.
+Qed.
+
+(* ---- C13: the standard scans take at most 2n transition-loop iterations on n bytes --------- *)
+Theorem bw_nosuffix_linear_lemma h : bytes h ->
+  exists ms it', drain V nos_next' (S (S (length h))) (nos_init h) = Ok (ms, it')
+                 /\ (N.to_nat (x_ticks it') <= 2 * length h)%nat.
+Proof.
+  intros Hb. destruct (nos_run h h [] ROOT 0 (S (S (length h))) eq_refl Hb walk_root0) as [it' [Hd Ht]]; [lia|cbn; lia|].
+  unfold nos_it_at in Hd. cbn [length] in Hd. eauto.
+Qed.
+
+Theorem bw_overlapping_linear_lemma h : bytes h ->
+  exists ms it', drain V ovl_next' (S (S (length h) * S (length (bw_outputs A)))) (ovl_init h) = Ok (ms, it')
+                 /\ (N.to_nat (v_ticks it') <= 2 * length h)%nat.
+Proof.
+  intros Hb. destruct (ovl_run h h [] ROOT 0%nat 0 eq_refl Hb walk_root0) as [it' [Ht Hd]]; [cbn; lia|].
+  unfold ovl_it_at in Hd. cbn [length] in Hd. eexists. exists it'. split; [|exact Ht]. apply Hd.
+  unfold ovl_expected.
+  pose proof (flat_map_length_le (fun e => map (mk e) (sufpats (firstn e h))) nouts (seq 1 (length h))) as Hle.
+  rewrite seq_length in Hle. fold nouts.
+  assert (forall x, In x (seq 1 (length h)) -> (length (map (mk x) (sufpats (firstn x h))) <= nouts)%nat) as Hx.
+  { intros x _. rewrite map_length. apply sufpats_bound. }
+  specialize (Hle Hx). nia.
+Qed.
+
+Theorem bw_find_linear_lemma h : bytes h ->
+  exists ms it', drain V find_next' (S (S (length h))) (find_init h) = Ok (ms, it')
+                 /\ (N.to_nat (f_ticks it') <= 2 * length h)%nat.
+Proof.
+  intros Hb. destruct (find_run h Hb (S (length h)) 0%nat (S (S (length h))) 0) as (ms & it' & Hd & _ & _ & Ht); try lia.
+  unfold find_it_at in Hd. cbn [skipn] in Hd. eauto.
 Qed.
 
 End BwCert.
